@@ -407,10 +407,13 @@ def fdCat (ps : Params) (parts : List Dom) : R :=
   match lookup ps "axis" with
   | Option.none => .error .key
   | some (.int dim0) =>
-    let ranks := (parts.map (·.shape.length)).eraseDups
-    if 0 ≤ dim0 ∧ ranks.length ≠ 1 then .error .assertion
+    -- `event_dims = {len(x.shape) for x in parts}; assert len(event_dims) == 1`
+    let oneRank : Option Nat := match parts with
+      | [] => Option.none
+      | p :: rest => if rest.all (fun x => x.shape.length == p.shape.length) then some p.shape.length else Option.none
+    if 0 ≤ dim0 ∧ oneRank = Option.none then .error .assertion
     else
-      let dim : Int := if 0 ≤ dim0 then dim0 - (ranks.headD 0 : Nat) else dim0
+      let dim : Int := if 0 ≤ dim0 then dim0 - ((oneRank.getD 0 : Nat) : Int) else dim0
       if ¬ dim < 0 then .error .assertion
       else
         match broadcastMany (parts.map fun x => pyTake x.shape dim) with
@@ -543,6 +546,54 @@ def npGetitemShape (shape : List Nat) (offset : Nat) : Option (List Nat) :=
     the `k ≥ 0` with `start + k*step < stop`. -/
 def npSliceCount (start stop step : Nat) : Nat :=
   ((List.range (stop - start)).filter fun d => d % step = 0).length
+
+/-- numpy basic indexing, the parts before the Ellipsis: matched against the leading axes, left to right.
+    `pre` collects the result dims produced so far; returns (produced dims, untouched axes). -/
+def npFront : List IdxPart → List Nat → List Nat → Option (List Nat × List Nat)
+  | [], pre, sh => some (pre, sh)
+  | .newaxis :: ps, pre, sh => npFront ps (pre ++ [1]) sh
+  | .int k :: ps, pre, n :: sh =>
+    if -(n : Int) ≤ k ∧ k < (n : Int) then npFront ps pre sh else Option.none      -- IndexError otherwise
+  | .slice a b c :: ps, pre, n :: sh =>
+    match sliceLen a b c n with
+    | .ok m => npFront ps (pre ++ [m]) sh
+    | .error _ => Option.none
+  | .int _ :: _, _, [] => Option.none                                              -- too many indices
+  | .slice _ _ _ :: _, _, [] => Option.none
+  | .ellipsis :: _, _, _ => Option.none
+
+/-- the parts after the Ellipsis, LAST part first, matched against the trailing axes (`fr` = the still
+    untouched axes, reversed); `done` collects the produced trailing dims. -/
+def npBack : List IdxPart → List Nat → List Nat → Option (List Nat × List Nat)
+  | [], fr, done => some (fr, done)
+  | .newaxis :: qs, fr, done => npBack qs fr (1 :: done)
+  | .int k :: qs, n :: fr, done =>
+    if -(n : Int) ≤ k ∧ k < (n : Int) then npBack qs fr done else Option.none
+  | .slice a b c :: qs, n :: fr, done =>
+    match sliceLen a b c n with
+    | .ok m => npBack qs fr (m :: done)
+    | .error _ => Option.none
+  | .int _ :: _, [], _ => Option.none
+  | .slice _ _ _ :: _, [], _ => Option.none
+  | .ellipsis :: _, _, _ => Option.none
+
+def ellCount : List IdxPart → Nat
+  | [] => 0
+  | .ellipsis :: ps => ellCount ps + 1
+  | _ :: ps => ellCount ps
+
+/-- numpy basic indexing `x[index]` with None / int / slice / (at most one) Ellipsis parts: the result
+    shape, `none` where numpy raises (two Ellipses, too many indices, integer out of range, zero step).
+    Axes not addressed (the Ellipsis, or the tail when there is none) are kept. -/
+def npIndexShape (index : List IdxPart) (shape : List Nat) : Option (List Nat) :=
+  if 1 < ellCount index then Option.none
+  else
+    match npFront (takeUntilEllipsis index) [] shape with
+    | Option.none => Option.none
+    | some (pre, rest) =>
+      match npBack (dropThroughEllipsis index).reverse rest.reverse [] with
+      | Option.none => Option.none
+      | some (fr, done) => some (pre ++ fr.reverse ++ done)
 
 /-- numpy matmul result shape. -/
 def npMatmulShape (a b : List Nat) : Option (List Nat) :=
